@@ -439,6 +439,12 @@ func Headers(t *rapid.T, o HeaderOpts) (prot, unprot rc.Val) {
 	}
 	if pick("cwt") {
 		claims := rc.Map(rc.E(rc.Int(1), rc.Text("iss")), rc.E(rc.Int(2), rc.Text(rapid.StringMatching(`[a-z]{0,10}`).Draw(t, "sub"))))
+		if rapid.IntRange(0, 2).Draw(t, "cwt-times") == 0 {
+			// exp / nbf / iat: long past, far future, zero - a COSE layer carries them, it does not judge them
+			for _, l := range []int64{4, 5, 6} {
+				claims.M = append(claims.M, rc.E(rc.Int(l), rc.Int(rapid.SampledFrom([]int64{0, 1, 1000000000, 4102444800, 253402300800}).Draw(t, "cwt-time"))))
+			}
+		}
 		if rapid.IntRange(0, 3).Draw(t, "cwt-unprotected") == 0 {
 			// (RFC 9597 puts the claims into the protected bucket; the library takes them in either)
 			add(&unprot, takenU, lab(15), claims)
